@@ -57,7 +57,7 @@ def trees():
     return st.recursive(leaf, extend, max_leaves=8)
 
 
-template = st.one_of(st.none(), st.none(), st.just('tag'), st.just('tag'), st.integers(0, len(CONSTS) - 1), st.just('nested'))      # 'nested': evaluate 7*6 on the same parser, hand nothing to the setter
+template = st.one_of(st.none(), st.none(), st.just('tag'), st.just('tag'), st.integers(0, len(CONSTS) - 1), st.just('nested'))      # 'nested': run a complete evaluation with references and calls on the same parser, hand nothing to the setter
 listener = st.lists(template, max_size=3)
 listeners = st.fixed_dictionaries(dict((k, st.lists(listener, max_size=3)) for k in KINDS))
 
@@ -215,13 +215,22 @@ def check(case):
     P.set_variable('v_err', _errors().NUM)
     problems = []
 
+    state = {'nested': False}
+
     def nested():
-        r = P.parse('7*6')
-        if r != {'result': 42, 'error': None}:
-            problems.append('a listener evaluating 7*6 on the same parser got %r' % (r,))
+        # a complete evaluation on the same parser, with references and a call of its own (whose events the listeners let pass)
+        state['nested'] = True
+        try:
+            r = P.parse('SUM(1,v_a)+LEN("ab")')
+        finally:
+            state['nested'] = False
+        if r != {'result': 44, 'error': None}:
+            problems.append('a listener evaluating SUM(1,v_a)+LEN("ab") on the same parser got %r' % (r,))
 
     def mk(kind, idx, tpl):
         def cell_l(cell, setter):
+            if state['nested']:
+                return
             lab = cell.label
             log.append((idx, kind, lab, cell.row.index, cell.col.index, cell.row.is_absolute, cell.col.is_absolute))
             for t in tpl:
@@ -231,6 +240,8 @@ def check(case):
                 setter(None if t is None else (cell_tag(cell.row.index, cell.col.index) if t == 'tag' else CONSTS[t]))
 
         def range_l(start, end, setter):
+            if state['nested']:
+                return
             log.append((idx, kind, start.row.index, start.col.index, end.row.index, end.col.index, (start.label, end.label)))
             for c, nm in ((start, 'start'), (end, 'end')):
                 p = rc.parse_label(c.label) if isinstance(c.label, str) else None
@@ -245,6 +256,8 @@ def check(case):
                 setter(None if t is None else ([start.row.index, start.col.index, end.row.index, end.col.index] if t == 'tag' else CONSTS[t]))
 
         def var_l(name, setter):
+            if state['nested']:
+                return
             log.append((idx, kind, name))
             for t in tpl:
                 if t == 'nested':
@@ -253,6 +266,8 @@ def check(case):
                 setter(None if t is None else ('var:' + name if t == 'tag' else CONSTS[t]))
 
         def func_l(name, args, setter):
+            if state['nested']:
+                return
             log.append((idx, kind, name, list(args)))
             for t in tpl:
                 if t == 'nested':
